@@ -287,6 +287,14 @@ def _perturb(a, lib):
     """One-field perturbations of an action and one equal copy."""
     cls = type(a)
     out = [(cls(*a.args), True)]
+    # an instance of the exported base class with the same parameters is of
+    # another kind
+    base = cls.__mro__[1]
+    if base.__name__ == "CheckpointAction":
+        try:
+            out.append((base(*a.args), False))
+        except Exception:                               # noqa: BLE001
+            pass
     ST = lib.StorageType
     for i, x in enumerate(a.args):
         if _is_bool(x):
